@@ -754,7 +754,28 @@ func r33ColumnOrder(c *core.Ctx) {
 			// (as an enclosing `if name != gcolumn` or an earlier `if name == gcolumn { continue }`: in both forms
 			// the only fact that holds at the appends is that the column is not the geometry column)
 			skipOK := true
-			notGeom := regexp.MustCompile(`^(\w+\.name(==|!=)\w+\.gcolumn|\w+\.gcolumn(==|!=)\w+\.name)$`)
+			notGeom := regexp.MustCompile(`^([\w.\[\]]+\.name(==|!=)\w+\.gcolumn|\w+\.gcolumn(==|!=)[\w.\[\]]+\.name)$`)
+			// a local that names the column's name field once (name := t.columns[i].name)
+			alias := map[types.Object]ast.Expr{}
+			for _, lp := range loops {
+				for _, st := range lp.Body.List {
+					if as, isAs := st.(*ast.AssignStmt); isAs && as.Tok == token.DEFINE && len(as.Lhs) == 1 && len(as.Rhs) == 1 {
+						if fv := core.FieldOf(info, as.Rhs[0]); fv != nil && fv.Name() == "name" {
+							if o := core.ObjOf(info, as.Lhs[0]); o != nil && assignedCount(info, lp.Body, o) == 1 {
+								alias[o] = as.Rhs[0]
+							}
+						}
+					}
+				}
+			}
+			unalias := func(e ast.Expr) ast.Expr {
+				if o := core.ObjOf(info, e); o != nil {
+					if r, ok := alias[o]; ok {
+						return r
+					}
+				}
+				return e
+			}
 			napps := 0
 			var namesLoop *colLoop
 			var namesSlice ast.Expr
@@ -762,7 +783,7 @@ func r33ColumnOrder(c *core.Ctx) {
 				for _, app := range core.BuiltinCallsIn(info, lp.Body, "append") {
 					napps++
 					if len(app.Args) == 2 {
-						if fv := core.FieldOf(info, app.Args[1]); fv != nil && fv.Name() == "name" {
+						if fv := core.FieldOf(info, unalias(app.Args[1])); fv != nil && fv.Name() == "name" {
 							namesLoop, namesSlice = lp, app.Args[0]
 						}
 					}
@@ -771,7 +792,11 @@ func r33ColumnOrder(c *core.Ctx) {
 						skipOK = false
 						continue
 					}
-					m := notGeom.FindStringSubmatch(facts[0].expr)
+					fexpr := facts[0].expr
+					for o, r := range alias {
+						fexpr = regexp.MustCompile(`\b`+regexp.QuoteMeta(o.Name())+`\b`).ReplaceAllString(fexpr, canon(r))
+					}
+					m := notGeom.FindStringSubmatch(fexpr)
 					if m == nil {
 						skipOK = false
 						continue
